@@ -465,6 +465,15 @@ def bindTable : List (Owner × Facts) :=
     [(t.owner, bindsOf t.name t.props ++ (if t.owner = .global then [("console", "111:-:-:-")] else []))] ++
     (if t.hasProto then [(t.protoOwner, bindsOf t.name t.protoProps)] else []))
 
+/-- the objects held in rt.global themselves: "<class field>:<nativeFunctionObject.name>:<call>:<construct>"
+    (definition.tmpl: `name: class{{Name}}Name, call: builtin{{Name}}, construct: builtinNew{{Name}}`; prototype.tmpl) -/
+def selfTable : List (Owner × String) :=
+  types.flatMap (fun t =>
+    (if t.owner = .global then []
+     else if t.cls = "" then [(t.owner, "Function:" ++ t.name ++ ":builtin" ++ t.name ++ ":builtinNew" ++ t.name)]
+     else [(t.owner, t.cls ++ ":-:-:-")]) ++
+    (if t.hasProto then [(t.protoOwner, if t.name = "Function" then "Function::closure:-" else t.name ++ ":-:-:-")] else []))
+
 /-! ### definition.tmpl / prototype.tmpl: the object-level facts -/
 def ownerFacts : List (Owner × Facts) :=
   types.flatMap (fun t =>
@@ -493,6 +502,39 @@ def forIn : Facts := Spec.forIn.map (fun (k, v) =>
   if k = "error" then (k, "message,name") else if k = "typeerror" ∨ k = "caught" then (k, "message") else (k, v))
 
 def links : Facts := Spec.links
+
+/-! ### function objects created at run time: type_function.go:82-100, 120-150 and global.go:190-217 -/
+open Spec (DynKind DynField)
+
+/-- type_function.go:91-95 newBoundFunctionObject: `length := int(toInt32(target.get("length"))); length -= len(argumentList);
+    if length < 0 { length = 0 }` (toInt32 is the identity on the lengths that occur) -/
+def boundLength (L : Int) (n : Nat) : Int :=
+  let l := L - n
+  if l < 0 then 0 else l
+
+/-- type_function.go:127 newNodeFunctionObject: `intValue(len(node.parameterList))` -/
+def dynLength (k : DynKind) (L n : Nat) : Int :=
+  match k with
+  | .bound => boundLength L n
+  | _ => L
+
+/-- name/length are defined with mode 0o000; global.go:199-217: every kind (bound ones too) gets an own `prototype` with
+    mode 0o100 whose `constructor` has mode 0o101 (newNodeFunction) resp. 0o100 (newBoundFunction); `caller` of node functions
+    is an accessor stored with mode 0o000, which property.go:98-104 isDataDescriptor takes for a data property, so
+    property.go:199 fromPropertyDescriptor fails its type assertion (a Go panic that leaves Run) -/
+def dyn (k : DynKind) (L n : Nat) : DynField → String
+  | .length => toString (dynLength k L n).toNat ++ "|" ++ (attrs 0o000).tok    -- (never negative after the clamp)
+  | .hasproto => "P"
+  | .protoattr => (attrs 0o100).tok
+  | .ctor => "self|" ++ (attrs (if k = .bound then 0o100 else 0o101)).tok
+  | .enumown => "0"
+  | .callerdesc => if k = .bound then "ok" else "panic"
+
+/-- `dynfn <kind> <L> <n> <field>` -/
+def devDyn (k : DynKind) (f : DynField) : String :=
+  if k = .bound ∧ (f = .hasproto ∨ f = .protoattr ∨ f = .ctor) then "bound_has_prototype"
+  else if k ≠ .bound ∧ f = .callerdesc then "accessor_descriptor_panic"
+  else "-"
 
 /-! ### deviation regions: decidable predicates on the request, each naming one defect -/
 
